@@ -771,8 +771,55 @@ def ascii_lower(c):
     return BV(32, False, "(ite (and (bvuge %s #x00000041) (bvule %s #x0000005a)) (bvadd %s #x00000020) %s)" % (t, t, t, t))
 
 
+class FmtArgs:
+    immutable = True
+
+    def __init__(self, template, args):
+        self.template, self.args = template, args
+
+
 def make_text_models():
     from .values import bv_bin
+    from .engine import Bytes
+
+    def m_new_display(ex, st, args, callee, ty):
+        return Adt("fmt::Argument", None, "display", [sstr_of(ex, st, args[0])])
+
+    def m_arguments_new(ex, st, args, callee, ty):
+        t = _obj(ex, st, args[0])
+        arr = _obj(ex, st, args[1])
+        if not isinstance(t, Bytes):
+            raise Unsupported("format template %r" % (t,))
+        return FmtArgs(t.b, [a.fields[0] for a in arr.fields])
+
+    def m_format(ex, st, args, callee, ty):
+        fa = _obj(ex, st, args[0])
+        if not isinstance(fa, FmtArgs):
+            raise Unsupported("fmt::format of %r" % (fa,))
+        b, out, i, nxt = fa.template, [], 0, 0
+        while i < len(b):
+            c = b[i]
+            if c == 0:
+                break
+            if c == 0xC0:
+                if nxt >= len(fa.args):
+                    raise Unsupported("format template uses more arguments than given")
+                out += fa.args[nxt].chars
+                nxt += 1
+                i += 1
+            elif c < 0x80:
+                lit = b[i + 1:i + 1 + c].decode("utf-8")
+                out += [BV(32, False, ord(x)) for x in lit]
+                i += 1 + c
+            else:
+                raise Unsupported("format template byte 0x%02x (formatting options are not modelled)" % c)
+        return SStr(out)
+
+    def m_identity1(ex, st, args, callee, ty):
+        return args[0]
+
+    def m_display(ex, st, args, callee, ty):
+        return sstr_of(ex, st, args[0])
 
     def m_chars(ex, st, args, callee, ty):
         return VecM(sstr_of(ex, st, args[0]).chars)
@@ -876,6 +923,39 @@ def make_text_models():
             return opt_none(ex)
         return f
 
+    def m_split_at(ex, st, args, callee, ty):
+        s = sstr_of(ex, st, args[0])
+        k = boundary(ex, st, s, args[1], "str::split_at")
+        return Adt("(tuple)", None, None, [BoxRef(SStr(s.chars[:k])), BoxRef(SStr(s.chars[k:]))])
+
+    def trimmer(front, back):
+        def f(ex, st, args, callee, ty):
+            s, t = sstr_of(ex, st, args[0]), sstr_of(ex, st, args[1])
+            cs, k = list(s.chars), len(t.chars)
+            if k == 0:
+                return BoxRef(SStr(cs))
+            while front and len(cs) >= k and ex.decide(st, chars_eq(cs[:k], t.chars)):
+                cs = cs[k:]
+            while back and len(cs) >= k and ex.decide(st, chars_eq(cs[len(cs) - k:], t.chars)):
+                cs = cs[:len(cs) - k]
+            return BoxRef(SStr(cs))
+        return f
+
+    def m_matches(ex, st, args, callee, ty):
+        """non-overlapping occurrences of a pattern, as an iterator of matched slices"""
+        s, t = sstr_of(ex, st, args[0]), sstr_of(ex, st, args[1])
+        n, k = len(s.chars), len(t.chars)
+        out, i = [], 0
+        if k == 0:
+            raise Unsupported("str::matches with an empty pattern")
+        while i + k <= n:
+            if ex.decide(st, chars_eq(s.chars[i:i + k], t.chars)):
+                out.append(BoxRef(SStr(s.chars[i:i + k])))
+                i += k
+            else:
+                i += 1
+        return VecM(out)
+
     def m_to_lowercase(ex, st, args, callee, ty):
         s = sstr_of(ex, st, args[0])
         for c in s.chars:
@@ -913,6 +993,12 @@ def make_text_models():
         (rx(r"^(?:core::)?str::<impl str>::strip_prefix::<(&String|&str|char|&&str)>$"), stripper(False)),
         (rx(r"^(?:core::)?str::<impl str>::rsplit_once::<(&String|&str|char|&&str)>$"), splitter(True)),
         (rx(r"^(?:core::)?str::<impl str>::split_once::<(&String|&str|char|&&str)>$"), splitter(False)),
+        (rx(r"^(?:core::)?str::<impl str>::split_at$"), m_split_at),
+        (rx(r"^(?:core::)?str::<impl str>::trim_start_matches::<(&String|&str|char|&&str)>$"), trimmer(True, False)),
+        (rx(r"^(?:core::)?str::<impl str>::trim_end_matches::<(&String|&str|char|&&str)>$"), trimmer(False, True)),
+        (rx(r"^(?:core::)?str::<impl str>::trim_matches::<(char)>$"), trimmer(True, True)),
+        (rx(r"^(?:core::)?str::<impl str>::matches::<(&String|&str|char|&&str)>$"), m_matches),
+        (rx(r"^<(?:std::str::)?Matches<'_, .*> as Iterator>::count$"), m_count),
         (rx(r"^<(str|String) as Index<RangeTo<usize>>>::index$"), m_index_to),
         (rx(r"^<(str|String) as Index<((?:std::ops::)?)?RangeFrom<usize>>>::index$"), m_index_from),
         (rx(r"^<(str|String) as Index<((?:std::ops::)?)?Range<usize>>>::index$"), m_index_range),
@@ -924,6 +1010,11 @@ def make_text_models():
         (rx(r"^<(String|str|&str|&String) as PartialEq(<(&str|str|String|&String)>)?>::eq$"), m_string_eq),
         (rx(r"^<(String|str|&str|&String) as PartialEq(<(&str|str|String|&String)>)?>::ne$"), m_string_ne),
         (rx(r"^<String as Deref>::deref$"), m_deref),
+        (rx(r"^core::fmt::rt::Argument::<'_>::new_display::<.*>$"), m_new_display),
+        (rx(r"^Arguments::<'_>::new::<.*>$"), m_arguments_new),
+        (rx(r"^(?:std|alloc)::fmt::format$"), m_format),
+        (rx(r"^must_use::<String>$"), m_identity1),
+        (rx(r"^Path::display$"), m_display),
         (rx(r"^String::(as_str|as_mut_str)$"), m_deref),
         (rx(r"^<String as (AsRef<str>|Borrow<str>)>::(as_ref|borrow)$"), m_deref),
         (rx(r"^<&?str as ToString>::to_string$"), m_to_owned),
